@@ -103,6 +103,9 @@ def Msg.WellFormed : Msg → Prop
   | .protocols ps => ps.length ≤ Consts.MSS_MAX_PROTOCOLS ∧ ∀ p ∈ ps, ListableName p
   | _ => True
 
+instance (m : Msg) : Decidable m.WellFormed := by
+  cases m <;> unfold Msg.WellFormed <;> infer_instance
+
 theorem encodeNames_length (ps : List Bytes) : ps.length ≤ (encodeNames ps).length := by
   induction ps with
   | nil => simp [encodeNames]
